@@ -84,6 +84,23 @@ def consensus_task(task):
             data = gen.make_data(rng, n, D, 11, kind="smooth")
             samples = ["S%d" % i for i in range(D)]
             forests, label = structured_forests(rng, n, c)
+            clusters = None
+            if c % 4 == 2:
+                # pre-clustered input: data points are clusters named by their integer id, the trace carries the cluster
+                # table of the cluster file - including, sometimes, a cluster that lost all its mutations on loading
+                import pandas as pd
+                crow = []
+                for dp in data:
+                    dp.name = str(2 * dp.idx + 3)
+                    for j in range(int(rng.integers(1, 4))):
+                        crow.append({"mutation_id": "m%d_%d" % (dp.idx, j), "cluster_id": 2 * dp.idx + 3})
+                if c % 8 == 2:
+                    gone = 2 * int(rng.integers(0, n)) + 2
+                    for j in range(int(rng.integers(1, 3))):
+                        crow.append({"mutation_id": "gone%d_%d" % (gone, j), "cluster_id": gone})
+                clusters = pd.DataFrame(crow).sort_values(by=["cluster_id", "mutation_id"]).reset_index(drop=True)
+                label += " [clustered]"
+                part.count("clustered_traces")
             if c % 7 == 3:
                 # the same mixture several hundred entries long (counts beyond one byte, supports unchanged)
                 reps = -(-int(rng.integers(270, 400)) // len(forests))
@@ -96,6 +113,8 @@ def consensus_task(task):
             results = {}
             for ch in range(n_chains):
                 results[ch] = {"data": data, "samples": samples, "trace": [], "chain_num": ch}
+                if clusters is not None:
+                    results[ch]["clusters"] = clusters
             for i, f in enumerate(forests):
                 one = tracegen.make_trace(rng, data, samples, 1, 1, [f], scores="real")
                 e = one[0]["trace"][0]
@@ -113,7 +132,38 @@ def consensus_task(task):
                     case = {"seed": task["seed"], "shard": task["shard"], "case": c, "n": n, "mixture": label,
                             "weighted": weighted, "threshold": thr, "forests": [f.describe() for f in forests]}
                     if any(abs(v - thr) <= 1e-9 for v in sup.values()):
-                        part.count("skipped_support_at_threshold")
+                        # a support within rounding of the threshold: that clade may or may not be retained (the property
+                        # excludes it), but the command must still complete and write a valid tree that keeps every clade
+                        # clearly above the threshold and none clearly below
+                        part.count("cases_with_support_at_threshold")
+                        must = frozenset(cl for cl, v in sup.items() if v > thr + 1e-9)
+                        may = frozenset(cl for cl, v in sup.items() if v >= thr - 1e-9)
+                        try:
+                            tab, nwk = os.path.join(tmp, "c.tsv"), os.path.join(tmp, "c.nwk")
+                            write_consensus_results(path, tab, nwk, consensus_threshold=thr,
+                                                    weight_type="joint-likelihood" if weighted else "counts")
+                            table = tracegen.read_table(tab)
+                            if clusters is not None:
+                                from checks.c12 import check_table
+                                check_table(part, dict(case, command="consensus"), table, open(nwk).read().strip(), data,
+                                            samples, None, clusters, None)
+                                part.count("command_outputs_at_threshold")
+                                continue
+                            key = tracegen.table_key(table, open(nwk).read().strip(), data)
+                            part.count("command_outputs_at_threshold")
+                            if not (must <= key[0] <= may):
+                                part.violation("consensus command's tree drops a clade clearly above the threshold or keeps "
+                                               "one clearly below it (another clade sits exactly at the threshold)",
+                                               dict(case, got=gen.key_str(key),
+                                                    supports={",".join(map(str, sorted(k))): round(v, 6) for k, v in sup.items()}))
+                        except Exception as e:
+                            et, where, msg = describe_exception(e)
+                            if where == "outside-repo":
+                                import traceback
+                                part.inconc("harness error: " + traceback.format_exc()[-900:])
+                            else:
+                                part.violation("%s in %s: consensus command failed on a trace with a clade exactly at the "
+                                               "threshold (%s)" % (et, where, msg[:60]), dict(case, msg=msg))
                         continue
                     retained = frozenset(cl for cl, v in sup.items() if v > thr)
                     covered = set().union(*retained) if retained else set()
@@ -157,6 +207,13 @@ def consensus_task(task):
                         write_consensus_results(path, tab, nwk, consensus_threshold=thr,
                                                 weight_type="joint-likelihood" if weighted else "counts")
                         table = tracegen.read_table(tab)
+                        if clusters is not None:
+                            from checks.c12 import check_table
+                            check_table(part, dict(case, command="consensus"), table, open(nwk).read().strip(), data, samples,
+                                        expected if ok else None, clusters, None)
+                            part.count("command_outputs")
+                            part.count("clustered_command_outputs")
+                            continue
                         key = tracegen.table_key(table, open(nwk).read().strip(), data)
                         part.count("command_outputs")
                         if key != expected and ok:
@@ -185,10 +242,10 @@ def consensus_task(task):
 
 def run(ctx):
     quick = ctx.tier == "quick"
-    ctx.rule = ("synthetic traces over 2-6 data points built from structured mixtures (disjoint clades with conflicting "
+    ctx.rule = ("synthetic traces (a quarter of them pre-clustered, some with a cluster that has no data point) over 2-6 data points built from structured mixtures (disjoint clades with conflicting "
                 "own-mutation splits, nested conflicts, conflicting chains, identical trees, random mixtures with outliers, "
                 "one dominant tree) over 1-3 chains x thresholds {0.5,0.6,0.75,0.9,1.0} x counts / score-weighted; cases "
-                "with a support within 1e-9 of the threshold are skipped; distinct = (mixture, weighting, threshold, "
+                "with a support within 1e-9 of the threshold: the command must complete and keep / drop the clear cases, the tied clade is free; distinct = (mixture, weighting, threshold, "
                 "expected consensus)")
     ctx.assumptions = ["weighted support = normalised exp(max recorded score) x count per distinct tree"]
     shards = 16
